@@ -263,7 +263,7 @@ def converter(F, rep, conv_fn):
     # cache key construction
     for gb in F.bodies.values():
         if gb.id.endswith("FxCache::get"):
-            gt = Terms(F, gb, inline_depth=0)
+            gt = Terms(F, gb, inline_depth=1)
             r = gt.local(0)
             keys = [x for x in subterms(r) if isinstance(x, tuple) and x and x[0] == "agg" and x[1].endswith("RateKey")]
             ok = bool(keys) and dict(keys[0][3]) == {"code": ("param", 1, gb.local_name(2)), "year": ("param", 2, gb.local_name(3)), "month": ("param", 3, gb.local_name(4))}
@@ -297,17 +297,30 @@ def loader(F, rep):
                    b.loc(), key="R6:insert:own-key")
     # parser call sites pass Some(expected from file name)
     n = 0
+
+    def sources(b, term, depth=0):
+        """[(body, term)] — the term with parameters of b replaced by what each caller passes (two levels)"""
+        ps = sorted({x[1] for x in subterms(term) if isinstance(x, tuple) and x and x[0] == "param"})
+        sites = [(cb, ct) for cb, ci, ct in F.call_sites(lambda cal, bid=b.id: cal == bid) if P.user_written(F, cb)]
+        if not ps or depth >= 2 or not sites:
+            return [(b, term)]
+        out = []
+        from mir import subst
+        for cb, ct in sites:
+            ctb = Terms(F, cb, inline_depth=0)
+            out += sources(cb, subst(term, [ctb.operand(a) for a in ct["args"]]), depth + 1)
+        return out
     for b, i, t in F.call_sites(lambda c: c.endswith("parser::parse_monthly_rates")):
         if not P.user_written(F, b):
             continue
-        n += 1
         tb = Terms(F, b, inline_depth=0)
-        exp = tb.operand(t["args"][2])
-        ok = isinstance(exp, tuple) and exp and exp[0] == "agg" and exp[2] == "Some" and any(
-            isinstance(x, tuple) and x and x[0] == "call" and x[1].endswith("expected_year_month_from_path") for x in subterms(exp))
-        rep.ob("R6", f"{b.short}:expected-period", ok, "rates file is parsed with Some(period from its file name)" if ok else
-               f"rates parser called with expected period {show(exp)[:60]} (a mislabelled file would be accepted)", b.loc(t["sp"]),
-               key=f"R6:{b.short}:expected-period")
+        for sb, exp in sources(b, tb.operand(t["args"][2])):
+            n += 1
+            ok = isinstance(exp, tuple) and exp and exp[0] == "agg" and exp[2] == "Some" and any(
+                isinstance(x, tuple) and x and x[0] == "call" and x[1].endswith("expected_year_month_from_path") for x in subterms(exp))
+            rep.ob("R6", f"{sb.short}:expected-period", ok, "rates file is parsed with Some(period from its file name)" if ok else
+                   f"rates parser called with expected period {show(exp)[:60]} (a mislabelled file would be accepted)", b.loc(t["sp"]),
+                   key=f"R6:{sb.short}:expected-period")
     if n < 2:
         rep.unresolved("R6", "parser-callers", f"{n} call sites of parse_monthly_rates")
     # bundled before folder
@@ -348,6 +361,45 @@ def rates_parser(F, rep):
             if isinstance(c, tuple) and c and c[0] == "discr" and isinstance(c[1], tuple) and c[1] and c[1][0] == "param" \
                     and "Option" in b.local_ty(c[1][1] + 1):
                 some_targets += [x for v, x in sw["targets"] if v == "1"]
+    # the period comparison may live in a helper called on the Some(expected) edge whose error is propagated with `?`
+    from mir import subst
+    for hi, ht_ in b.calls():
+        hb = F.bodies.get(ht_["callee"])
+        if hb is None or hb.crate != b.crate or not P.user_written(F, hb) or "Result" not in hb.ret:
+            continue
+        if not (some_targets and all(b.block_cuts(hi, st, p[0]) for st in some_targets for p in pushes)):
+            continue
+        # `?` on the helper's result: the Break arm must not reach a push
+        brk_ok = False
+        for s2 in b.reach_from(ht_["target"]) if ht_.get("target") is not None else ():
+            sw2 = b.term(s2)
+            if sw2["k"] == "switch":
+                c2 = tb.operand(sw2["discr"])
+                if isinstance(c2, tuple) and c2 and c2[0] == "discr" and any(isinstance(x, tuple) and x and x[0] == "call" and x[1] == hb.id for x in subterms(c2)):
+                    brk = [x for v, x in sw2["targets"] if v == "1"]
+                    brk_ok = bool(brk) and all(p[0] not in b.reach_from(brk[0]) for p in pushes)
+                    break
+        if not brk_ok:
+            continue
+        htb = Terms(F, hb, inline_depth=0)
+        hargs = [tb.operand(a) for a in ht_["args"]]
+        for s2 in hb.reachable():
+            sw2 = hb.term(s2)
+            if sw2["k"] != "switch":
+                continue
+            c2 = subst(htb.operand(sw2["discr"]), hargs)
+            if isinstance(c2, tuple) and c2 and c2[0] in ("bin", "cmp") and c2[1] in ("Ne", "Eq") and "parse_period" in show(c2, 0):
+                lhs, rhs = show(c2[2]), show(c2[3])
+                comp = "year" if lhs.endswith(".0") and rhs.endswith(".0") else ("month" if lhs.endswith(".1") and rhs.endswith(".1") else None)
+                if comp is None:
+                    continue
+                mismatch = sw2["otherwise"] if c2[1] == "Ne" else [x for v, x in sw2["targets"] if v == "0"][0]
+                ok_blocks = {bi for bi, si, st in hb.assigns() if st["rv"]["k"] == "agg" and st["rv"].get("adt") == "core::result::Result" and st["rv"].get("variant") == "Ok"}
+                if not (ok_blocks & hb.reach_from(mismatch)):
+                    if comp == "year":
+                        yr = True
+                    else:
+                        mo = True
     for s in b.reachable():
         sw = b.term(s)
         if sw["k"] != "switch":
